@@ -1,4 +1,5 @@
 import Pysmi.Lemmas.Symtab
+import Pysmi.Lemmas.Except
 /-!
 # C03 / C01 — the symbol table holds exactly the declared symbols, whatever their order
 
@@ -12,8 +13,6 @@ import Pysmi.Lemmas.Symtab
 * `C01_order_irrelevant_success`: permuting the declarations changes neither success nor failure.
   (False for the code before commit dfb1bd2 — `C01_single_pass_witness`.)
 -/
-deriving instance DecidableEq for Except
-
 namespace Pysmi.Symtab
 
 /-- all rows any declaration of the module adds -/
